@@ -174,6 +174,7 @@ inductive Action
   | after (r : Nat)                     -- proxyLoopIteration after reverseProxy returned
   | forget (i : Nat)                    -- forgetter i wakes up (timer or ctx.Done) and runs countFail(-1)
   | newIter (r : Nat)                   -- a loop iteration of a handler with dynamic upstreams begins (its own pool holder)
+  | fallback (r : Nat)                  -- the dynamic source failed: this iteration uses the handler's static upstreams
   | tick
   deriving Repr
 
@@ -198,7 +199,12 @@ def dynOk (s : State) (r : Nat) (q : Req) (h : HostId) : Bool :=
       match s.cfgs[c]? with
       | some cs => !cs.canceled && cs.owner == some r && cs.ups.any (·.2 == h)
       | none => false
-    | none => false
+    | none =>
+      -- the source failed in this iteration (reverseproxy.go:503-507): the handler's own, static
+      -- upstreams are used instead
+      match s.cfgs[q.cfg]? with
+      | some cs => cs.ups.any (·.2 == h)
+      | none => false
   else true
 
 /-- an iteration's holder ends (the deferred deletes start) only when its request is back at
@@ -234,6 +240,17 @@ def stepNewIter (s : State) (r : Nat) : Option State :=
         some { s with cfgs := s.cfgs ++ [{ par := q.par, ups := [], held := [], canceled := false, owner := some r }],
                       reqs := s.reqs.set r { q with holder := some s.cfgs.length } }
       else none
+    | _ => none
+  | none => none
+
+/-- reverseproxy.go:503-507 — `GetUpstreams` returned an error: this iteration falls back to the
+    static upstreams of the handler; nothing is provisioned, nothing will be released -/
+def stepFallback (s : State) (r : Nat) : Option State :=
+  match s.reqs[r]? with
+  | some q =>
+    match q.pc with
+    | .start =>
+      if q.par.dynamic then some { s with reqs := s.reqs.set r { q with holder := none } } else none
     | _ => none
   | none => none
 
@@ -390,6 +407,7 @@ def step (s : State) : Action → Option State
   | .after r => stepAfter s r
   | .forget i => stepForget s i
   | .newIter r => stepNewIter s r
+  | .fallback r => stepFallback s r
   | .tick => some { s with now := s.now + 1 }
 
 def run (s : State) : List Action → Option State
